@@ -304,6 +304,9 @@ def removal_rules(prog, chk, R3="R6.3", R4="R6.4", declare=True):
                     for g in flow_back(b, d, bound):
                         if side == "prefix" and g.kind == 'const' and g.node.value == 0:
                             empty = True
+                        if side == "prefix" and g.kind == 'call' and (g.node.best_callee() or "").endswith("CharIndices as core::iter::traits::iterator::Iterator>::next") \
+                                and not any("offset" in v for v in g.via):
+                            empty = True    # s[0..idx] with idx a char start: the first candidate is s[0..0]
                         if side == "suffix" and g.kind == 'call' and (g.node.best_callee() or "").endswith("str::len"):
                             empty = True
             if empty:
